@@ -100,6 +100,81 @@ fn mem(b: &Bloom, k: &[u8]) -> FilterResult {
     b.contains_in_memory(k).unwrap_or(FilterResult::NeedAdditionalCheck)
 }
 
+/// Range and combined filters over 4-byte keys of key type `K` (the filters have to follow the key type's order)
+fn range_combined<K>(c: &BloomCase, cfg: &BloomConfig, rt: &tokio::runtime::Runtime, provider: &Provider, tag: &str, queries: &mut u64) -> Result<(), Failure>
+where
+    for<'a> K: pearl::Key<'a> + 'static,
+{
+    // 5. range + combined filters over 4-byte keys
+    let ra: RangeFilter<K> = RangeFilter::new();
+    let rb: RangeFilter<K> = RangeFilter::new();
+    for k in &c.ka {
+        ra.add(&K::from(k.to_vec()));
+    }
+    for k in &c.kb {
+        rb.add(&K::from(k.to_vec()));
+    }
+    for k in &c.ka {
+        *queries += 1;
+        if !ra.contains(&K::from(k.to_vec())) {
+            return fail(&format!("{}range/false-negative", tag), format!("key {:?}", k));
+        }
+    }
+    let raw_r = match ra.to_raw() {
+        Ok(r) => r,
+        Err(e) => return fail("range/to_raw-err", format!("{:#}", e)),
+    };
+    let ra2: RangeFilter<K> = match RangeFilter::from_raw(&raw_r) {
+        Ok(r) => r,
+        Err(e) => return fail("range/from_raw-err", format!("{:#}", e)),
+    };
+    for k in c.ka.iter().chain(c.kb.iter()).chain(c.kprobes.iter()) {
+        *queries += 1;
+        if ra2.contains(&K::from(k.to_vec())) != ra.contains(&K::from(k.to_vec())) {
+            return fail(&format!("{}range/roundtrip-differs", tag), format!("key {:?}", k));
+        }
+    }
+    let mk = |keys: &Vec<[u8; 4]>| -> CombinedFilter<K> {
+        let f = CombinedFilter::new(if c.combined_with_bloom { Some(Bloom::new(cfg.clone())) } else { None }, RangeFilter::new());
+        for k in keys {
+            FilterTrait::add(&f, &K::from(k.to_vec()));
+        }
+        f
+    };
+    let ca = mk(&c.ka);
+    let cb = mk(&c.kb);
+    let mut cm = ca.clone();
+    let merged = cm.checked_add_assign(&cb);
+    for k in &c.ka {
+        *queries += 2;
+        if ca.contains_fast(&K::from(k.to_vec())) == FilterResult::NotContains {
+            return fail(&format!("{}combined/false-negative", tag), format!("key {:?}", k));
+        }
+        if rt.block_on(FilterTrait::contains(&ca, provider, &K::from(k.to_vec()))) == FilterResult::NotContains {
+            return fail(&format!("{}combined/false-negative-async", tag), format!("key {:?}", k));
+        }
+    }
+    if merged {
+        for k in c.ka.iter().chain(c.kb.iter()) {
+            *queries += 1;
+            if cm.contains_fast(&K::from(k.to_vec())) == FilterResult::NotContains {
+                return fail(&format!("{}combined/merge-false-negative", tag), format!("key {:?}", k));
+            }
+        }
+    }
+    // clone is deep: adding to the clone must not be required for the original's keys
+    let cc = ca.clone();
+    for k in &c.kb {
+        FilterTrait::add(&cc, &K::from(k.to_vec()));
+    }
+    for k in &c.ka {
+        if cc.contains_fast(&K::from(k.to_vec())) == FilterResult::NotContains {
+            return fail(&format!("{}combined/clone-false-negative", tag), format!("key {:?}", k));
+        }
+    }
+    Ok(())
+}
+
 pub fn run_bloom(c: &BloomCase, _dir: &Path) -> Result<CaseOut, Failure> {
     let rt = tokio::runtime::Builder::new_current_thread().build().expect("rt");
     let mut labels = BTreeSet::new();
@@ -196,74 +271,9 @@ pub fn run_bloom(c: &BloomCase, _dir: &Path) -> Result<CaseOut, Failure> {
         labels.insert("bits_not_multiple_of_64".to_string());
     }
 
-    // 5. range + combined filters over 4-byte keys
-    type K = ArrayKey<4>;
-    let ra: RangeFilter<K> = RangeFilter::new();
-    let rb: RangeFilter<K> = RangeFilter::new();
-    for k in &c.ka {
-        ra.add(&K::from(*k));
-    }
-    for k in &c.kb {
-        rb.add(&K::from(*k));
-    }
-    for k in &c.ka {
-        queries += 1;
-        if !ra.contains(&K::from(*k)) {
-            return fail("range/false-negative", format!("key {:?}", k));
-        }
-    }
-    let raw_r = match ra.to_raw() {
-        Ok(r) => r,
-        Err(e) => return fail("range/to_raw-err", format!("{:#}", e)),
-    };
-    let ra2: RangeFilter<K> = match RangeFilter::from_raw(&raw_r) {
-        Ok(r) => r,
-        Err(e) => return fail("range/from_raw-err", format!("{:#}", e)),
-    };
-    for k in c.ka.iter().chain(c.kb.iter()).chain(c.kprobes.iter()) {
-        queries += 1;
-        if ra2.contains(&K::from(*k)) != ra.contains(&K::from(*k)) {
-            return fail("range/roundtrip-differs", format!("key {:?}", k));
-        }
-    }
-    let mk = |keys: &Vec<[u8; 4]>| -> CombinedFilter<K> {
-        let f = CombinedFilter::new(if c.combined_with_bloom { Some(Bloom::new(cfg.clone())) } else { None }, RangeFilter::new());
-        for k in keys {
-            FilterTrait::add(&f, &K::from(*k));
-        }
-        f
-    };
-    let ca = mk(&c.ka);
-    let cb = mk(&c.kb);
-    let mut cm = ca.clone();
-    let merged = cm.checked_add_assign(&cb);
-    for k in &c.ka {
-        queries += 2;
-        if ca.contains_fast(&K::from(*k)) == FilterResult::NotContains {
-            return fail("combined/false-negative", format!("key {:?}", k));
-        }
-        if rt.block_on(FilterTrait::contains(&ca, &provider, &K::from(*k))) == FilterResult::NotContains {
-            return fail("combined/false-negative-async", format!("key {:?}", k));
-        }
-    }
-    if merged {
-        for k in c.ka.iter().chain(c.kb.iter()) {
-            queries += 1;
-            if cm.contains_fast(&K::from(*k)) == FilterResult::NotContains {
-                return fail("combined/merge-false-negative", format!("key {:?}", k));
-            }
-        }
-    }
-    // clone is deep: adding to the clone must not be required for the original's keys
-    let cc = ca.clone();
-    for k in &c.kb {
-        FilterTrait::add(&cc, &K::from(*k));
-    }
-    for k in &c.ka {
-        if cc.contains_fast(&K::from(*k)) == FilterResult::NotContains {
-            return fail("combined/clone-false-negative", format!("key {:?}", k));
-        }
-    }
+    // 5. range + combined filters over 4-byte keys: the byte-ordered key type and one with another order
+    range_combined::<ArrayKey<4>>(c, &cfg, &rt, &provider, "", &mut queries)?;
+    range_combined::<super::c09::RevKey<4>>(c, &cfg, &rt, &provider, "custom-order/", &mut queries)?;
     let nontrivial = !c.a.is_empty() && c.hashers > 0 && (c.max_bits % 64 != 0 || freed > 0);
     let mut stats = crate::interp::Stats::default();
     stats.queries = queries;
@@ -501,7 +511,7 @@ pub fn run(ctx: &RunCtx) -> PropResult {
     PropResult {
         report,
         level: "exploration",
-        rule: "Three generated domains. (bloom) bloom configs with 0-5 hashers, bit budgets 0..5000 (mostly not multiples of 64), zero sizes, key sets of 0-120 byte strings of length 0-300: every added key is never denied in memory, after to_raw/from_raw, through contains_in_file over the serialized bytes at a generated offset with the buffer in memory and off-loaded (in-file answer must EQUAL the in-memory answer for every probe, added or not), after merge (the second filter also built with another hasher count over the same bit budget: the merge must be refused or stay free of false negatives); range and combined filters likewise incl. clone and round trip. (hier) HierarchicalFilters<ArrayKey<4>, CombinedFilter, MockBlob> with group size 2..9 under push/pop/remove/offload(level)/reload/add_to_parents scripts: after every op every key of every present child is reachable through iter_possible_childs[_rev], check_filter[_fast] and the root filter. (history) storage histories with bloom on/off, offload at levels 0..2, deletes into closed blobs, restore + writes + close, restarts: check_filters / BloomProvider::check_filter never deny a stored key and read still finds every model-present key. False positives are never flagged. Non-trivial: bloom = keys added with >=1 hasher and (bit budget not multiple of 64 or buffer off-loaded); hier = more childs than the group size and a pop/remove/offload happened; history = >=2 closed blobs and an offload, restore or delete-in-closed. distinct = FNV hash of the serialized case.".into(),
+        rule: "Three generated domains. (bloom) bloom configs with 0-5 hashers, bit budgets 0..5000 (mostly not multiples of 64), zero sizes, key sets of 0-120 byte strings of length 0-300: every added key is never denied in memory, after to_raw/from_raw, through contains_in_file over the serialized bytes at a generated offset with the buffer in memory and off-loaded (in-file answer must EQUAL the in-memory answer for every probe, added or not), after merge (the second filter also built with another hasher count over the same bit budget: the merge must be refused or stay free of false negatives); range and combined filters likewise incl. clone, round trip and merge, for the byte-ordered key type and for a key type with another order (bytes compared from the last). (hier) HierarchicalFilters<ArrayKey<4>, CombinedFilter, MockBlob> with group size 2..9 under push/pop/remove/offload(level)/reload/add_to_parents scripts: after every op every key of every present child is reachable through iter_possible_childs[_rev], check_filter[_fast] and the root filter. (history) storage histories with bloom on/off, offload at levels 0..2, deletes into closed blobs, restore + writes + close, restarts: check_filters / BloomProvider::check_filter never deny a stored key and read still finds every model-present key. False positives are never flagged. Non-trivial: bloom = keys added with >=1 hasher and (bit budget not multiple of 64 or buffer off-loaded); hier = more childs than the group size and a pop/remove/offload happened; history = >=2 closed blobs and an offload, restore or delete-in-closed. distinct = FNV hash of the serialized case.".into(),
         assumptions: common_assumptions(),
     }
 }
